@@ -118,6 +118,9 @@ def run(chk):
             name = x.get("ty", x.get("enum"))
             if "total" in flags:
                 chk.violation("%s:decode:%s" % (name, x["st"]), "%s: real decoder %s on %s" % (name, x["st"], cc.hexs(x["in"])), cc.short(x))
+            elif "P02-wrapped" in flags:
+                chk.violation("%s:decode:wrapped" % name, "%s: a number that does not fit its field is decoded to a value instead of an error, on %s" % (
+                    name, cc.hexs(x["in"])), cc.short(x))
             elif flags - {"noncanon", "reenc", "rt"}:
                 chk.drift("L1-codec", "%s %s %s" % (name, mode, sorted(flags)), cc.short(x, 24))
     chk.cov["traces_validated_against_impl"] = sampled
